@@ -388,6 +388,23 @@ func closedGuards(c *Ctx) {
 			q.add("PATH", "consumer.Close cancels before waiting", P.Before(q.fn, an.Is(cs[0]), ws[0]), "cancel dominates the wait (a blocked Get is released)", cs[0])
 		}
 	}
+	// every Close body closes its done channel on every exit
+	for _, x := range [][2]string{{"(*Buffer).Close$1", "Buffer.done"}, {"(*consumer).Close$1", "consumer.done"}, {"(*Channel).Close$1", "Channel.done"}} {
+		q := c.F(x[0])
+		if !q.ok() {
+			continue
+		}
+		cl := an.AllInstrs(q.fn, func(in ssa.Instruction) bool {
+			cc := an.CallCommonOf(in)
+			if cc == nil {
+				return false
+			}
+			b, ok := cc.Value.(*ssa.Builtin)
+			return ok && b.Name() == "close" && an.IsLoadOfField(cc.Args[0], x[1])
+		})
+		ok := len(cl) == 1 && !P.PathExists(q.fn, nil, an.IsReturn, an.In(cl), nil)
+		q.add("PATH", "closing closes the Done channel", ok, pickS(ok, "close("+x[1]+") (deferred) on every path of the close body", "the close body can finish without closing "+x[1]+": Done would never be closed"), cl...)
+	}
 	// Buffer.ensure: every lazily initialised field is re-checked under the lock
 	if q := c.F("(*Buffer).ensure"); q.ok() {
 		n := 0
@@ -399,7 +416,7 @@ func closedGuards(c *Ctx) {
 					for _, g := range []string{"Buffer.ctx", "Buffer.cancel", "Buffer.consumers", "Buffer.done", "Buffer.cleaner", "Buffer.cond"} {
 						ifs, negs := P.IfsOn(cl, func(cond ssa.Value) bool {
 							b, ok := cond.(*ssa.BinOp)
-							return ok && (b.Op == token.EQL || b.Op == token.NEQ) && an.IsLoadOfField(b.X, g) && isNilConst(b.Y)
+							return ok && (b.Op == token.EQL || b.Op == token.NEQ) && either(b, loadOfField(g), isNilConst)
 						})
 						for i, ifi := range ifs {
 							b := stripNotV(ifi.Cond).(*ssa.BinOp)
@@ -451,6 +468,11 @@ func init() {
 					return true
 				}
 				if o.Rule == "B" && funcHas(o, "Close") {
+					return true
+				}
+				// lock pairing (incl. panic exits) and the wake-ups Close depends on: an unpaired lock or a lost
+				// wake-up of consumer.cond / Buffer.cond makes Close (or every later call) block for ever
+				if ruleIn(o, "P", "PX", "WL", "S", "SL") && funcHas(o, "(*Buffer)", "(*consumer)", "(*Channel)") {
 					return true
 				}
 				return false
